@@ -2,7 +2,7 @@
 """Re-run the checks recorded in seeded/<name>/meta.json against each seeded change (after a check or a generator was
 changed: generator changes shift every random stream, so every seed of the touched properties is re-confirmed).
 
-  reverify_seeds.py [C07 C12 ...] [--tier quick] [--jobs 4] [--seed N]
+  reverify_seeds.py [C07 C12 ...] [--tier quick] [--jobs 4] [--seed N] [--names a,b] [--own] [--dry]
 Each job works in scratch copies of /repo (patched) and of /verif's harness under $TMPDIR, removed afterwards; /repo and
 /verif/evidence are never touched.  meta.json's "checks" are updated in place.  Exit 1 if a recorded CAUGHT became MISSED."""
 import json, os, shutil, subprocess, sys, tempfile
@@ -19,6 +19,11 @@ def opt(flag, default):
 
 
 tier, jobs, seed = opt("--tier", "quick"), int(opt("--jobs", "4")), opt("--seed", "0")
+names = opt("--names", None)        # comma-separated seed names: only these
+own_only = "--own" in a             # only each seed's own property's check
+dry = "--dry" in a                  # do not rewrite meta.json (robustness sweeps with other VERIF_SEED values)
+a = [x for x in a if x not in ("--own", "--dry")]
+names = set(names.split(",")) if names else None
 props = set(a)
 work = []
 for name in sorted(os.listdir(os.path.join(V, "seeded"))):
@@ -28,7 +33,11 @@ for name in sorted(os.listdir(os.path.join(V, "seeded"))):
     m = json.load(open(mp))
     if m.get("obsolete"):
         continue
+    if names is not None and name not in names:
+        continue
     for c in m.get("checks", {}):
+        if own_only and c != m.get("property"):
+            continue
         if not props or c in props:
             work.append((name, c))
 
@@ -61,8 +70,9 @@ with ThreadPoolExecutor(jobs) as ex:
         mp = os.path.join(V, "seeded", name, "meta.json")
         m = json.load(open(mp))
         was = m["checks"][c]["verdict"]
-        m["checks"][c] = res
-        json.dump(m, open(mp, "w"), indent=1)
+        if not dry:
+            m["checks"][c] = res
+            json.dump(m, open(mp, "w"), indent=1)
         flag = ""
         if was == "CAUGHT" and res["verdict"] != "CAUGHT":
             bad += 1
